@@ -11,7 +11,7 @@ use oracle::rng::{mix, Rng};
 use serde_json::{json, Value};
 
 pub const ID: &str = "C12";
-pub const FAMS: [&str; 2] = ["svg-program", "image-string"];
+pub const FAMS: [&str; 3] = ["svg-program", "image-string", "exact-dark-count"];
 
 #[derive(Clone, Debug)]
 pub struct RJob {
@@ -66,10 +66,46 @@ pub fn jobs(ctx: &Ctx) -> Vec<RJob> {
             out.push(RJob { job, spec });
         }
     }
+    // symbols whose number of dark modules is exactly a multiple of 4096 / a power of two (found by search, craft.rs):
+    // writers that work in blocks of sub-paths meet their boundaries here
+    for (i, (v, dk)) in Job::dark_count_cells().into_iter().enumerate() {
+        if ctx.tier == crate::fw::Tier::Quick && v > 27 && i % 2 == 1 {
+            continue;
+        }
+        k += 1;
+        let mut rng = Rng::new(mix(ctx.seed, k ^ 0xda));
+        let job = Job::dark_count(FAMS[2], dk, v, rng.below(2), rng.below(8), mix(ctx.seed, k));
+        let mut spec = render::random_svg_spec(&mut rng, 17 + 4 * v, false);
+        spec.layers.truncate(2);
+        out.push(RJob { job, spec });
+    }
     out
 }
 
+impl RJob {
+    /// jobs whose payload is found by search get it here, once, on the worker thread
+    pub fn materialise(&self, st: &mut Stats) -> Option<RJob> {
+        match self.job.materialise() {
+            Some(job) => {
+                if self.job.aux[3] == crate::job::CRAFT_DARK {
+                    st.count("symbols_with_an_exact_dark_module_count", 1);
+                }
+                Some(RJob { job, spec: self.spec.clone() })
+            }
+            None => {
+                st.count("dark_count_searches_without_result", 1);
+                None
+            }
+        }
+    }
+}
+
 pub fn observe(_ctx: &Ctx, st: &mut Stats, rj: &RJob) {
+    let owned = match rj.materialise(st) {
+        Some(r) => r,
+        None => return,
+    };
+    let rj = &owned;
     let cfg = rj.job.config();
     st.eval();
     let qr = match adapter::build(&cfg) {
@@ -92,6 +128,7 @@ pub fn observe(_ctx: &Ctx, st: &mut Stats, rj: &RJob) {
             st.count("subpaths_matched_to_dark_modules", c.subpaths);
             st.count("layers_checked", c.layers);
             st.count("image_elements_checked", c.image_elements);
+            st.count("layers_split_over_several_path_elements", c.split_layers);
             st.reach("versions", qr.version.map(adapter::version_no).unwrap_or(0) as u64);
             for (s, _) in &rj.spec.layers {
                 st.reach("shapes", *s as u64);
@@ -120,7 +157,7 @@ pub fn run(ctx: &Ctx) -> Report {
     let st = pool::run(&jobs, ctx.remaining(), |st, job, _| observe(ctx, st, job));
     let mut rep = Report::new(
         st,
-        "jobs = versions {1,2,6,7,14,21,27,40} (thorough: all 40) x random builder programs: margin in {default,0,1,4,7,size,random}, 0..5 shape()/shape_color() calls over the 6 built-in shapes with repeats, colours as [u8;3], [u8;4] (alpha 0,1,127,254,255), #hex and named strings, optional image string from URLs / data URIs / paths / strings with & < > \" ' / non-ASCII; the document is parsed by a strict XML parser, then: viewBox and background rect = size+2*margin, background/layer fills, one <path> per layer in call order, every sub-path's bounding box (own path interpreter incl. arcs) inside exactly one unit cell with extent >= 0.3, the multiset of cells == dark modules shifted by margin (none on light modules or the quiet zone), exactly one <image> whose parsed href equals the configured string (none otherwise); distinct key = (qr options, payload hash, spec); every document non-trivial",
+        "jobs = versions {1,2,6,7,14,21,27,40} (thorough: all 40) x random builder programs: margin in {default,0,1,4,7,size,random}, 0..5 shape()/shape_color() calls over the 6 built-in shapes with repeats, colours as [u8;3], [u8;4] (alpha 0,1,127,254,255), #hex and named strings, optional image string from URLs / data URIs / paths / strings with & < > \" ' / non-ASCII; the document is parsed by a strict XML parser, then: viewBox and background rect = size+2*margin, background/layer fills, one <path> per layer in call order, every sub-path's bounding box (own path interpreter incl. arcs) inside exactly one unit cell with extent >= 0.3, the multiset of cells == dark modules shifted by margin (none on light modules or the quiet zone), symbols whose dark-module count is exactly 256 .. 16384 (powers of two, multiples of 4096; found by an oracle-judged search); a layer may be split over several consecutive <path> elements; exactly one <image> whose parsed href equals the configured string (none otherwise); distinct key = (qr options, payload hash, spec); every document non-trivial",
     );
     rep.expected_sets = vec![("shapes", 6), ("layer_counts", 6), ("xml_special_chars_in_image_string", 5)];
     rep.required_sets = vec![("shapes", 6), ("xml_special_chars_in_image_string", 5)];
